@@ -167,6 +167,11 @@ struct WBXMLEncoder_s {
     WBXMLCharsetMIBEnum output_charset;     /**< Output charset encoding */
     WB_BOOL flow_mode;                      /**< Is Flow Mode encoding activated ? */
     WB_ULONG pre_last_node_len;             /**< Output buffer length before last node encoding */
+    WB_UTINY pre_last_tagCodePage;          /**< Tag Code Page before last node encoding */
+    WB_UTINY pre_last_attrCodePage;         /**< Attribute Code Page before last node encoding */
+    WB_UTINY pre_last_indent;               /**< Indent before last node encoding */
+    WB_BOOL pre_last_in_content;            /**< 'in_content' before last node encoding */
+    const WBXMLTagEntry *pre_last_tag;      /**< Current Tag before last node encoding */
     WB_BOOL textual_publicid;               /**< Generate textual Public ID instead of token (when generating WBXML output) */
 };
 
@@ -434,6 +439,11 @@ WBXML_DECLARE(WBXMLEncoder *) wbxml_encoder_create_real(void)
     
     encoder->flow_mode = FALSE;
     encoder->pre_last_node_len = 0;
+    encoder->pre_last_tagCodePage = 0;
+    encoder->pre_last_attrCodePage = 0;
+    encoder->pre_last_indent = 0;
+    encoder->pre_last_in_content = FALSE;
+    encoder->pre_last_tag = NULL;
     encoder->textual_publicid = FALSE;
 
     return encoder;
@@ -486,6 +496,11 @@ WBXML_DECLARE(void) wbxml_encoder_reset(WBXMLEncoder *encoder)
     encoder->cdata = NULL;
     
     encoder->pre_last_node_len = 0;
+    encoder->pre_last_tagCodePage = 0;
+    encoder->pre_last_attrCodePage = 0;
+    encoder->pre_last_indent = 0;
+    encoder->pre_last_in_content = FALSE;
+    encoder->pre_last_tag = NULL;
 
 #if defined( WBXML_ENCODER_USE_STRTBL )
     /* Empty the String Table, but keep the list: it is created only once, by wbxml_encoder_create() */
@@ -675,6 +690,9 @@ WBXML_DECLARE(WBXMLError) wbxml_encoder_encode_node(WBXMLEncoder *encoder, WBXML
 WBXML_DECLARE(WBXMLError) wbxml_encoder_encode_node_with_elt_end(WBXMLEncoder *encoder, WBXMLTreeNode *node, WB_BOOL enc_end)
 {
     WB_ULONG   prev_len = 0;
+    WB_UTINY   prev_tagCodePage = 0, prev_attrCodePage = 0, prev_indent = 0;
+    WB_BOOL    prev_in_content = FALSE;
+    const WBXMLTagEntry *prev_tag = NULL;
     WBXMLError ret      = WBXML_OK;
     
     if ((encoder == NULL) || (node == NULL))
@@ -688,8 +706,13 @@ WBXML_DECLARE(WBXMLError) wbxml_encoder_encode_node_with_elt_end(WBXMLEncoder *e
     if (!encoder_init_output(encoder))
         return WBXML_ERROR_NOT_ENOUGH_MEMORY;
     
-    /* Backup length */
+    /* Backup length and the encoder state the next nodes depend on */
     prev_len = wbxml_buffer_len(encoder->output);
+    prev_tagCodePage = encoder->tagCodePage;
+    prev_attrCodePage = encoder->attrCodePage;
+    prev_indent = encoder->indent;
+    prev_in_content = encoder->in_content;
+    prev_tag = encoder->current_tag;
     
     /* Check if result header is not already built */
     if ((encoder->flow_mode == TRUE) && (encoder->output_header == NULL) &&
@@ -720,8 +743,14 @@ WBXML_DECLARE(WBXMLError) wbxml_encoder_encode_node_with_elt_end(WBXMLEncoder *e
     if (ret != WBXML_OK)
         return ret;
     
-    if ((ret = parse_node(encoder, node, enc_end)) == WBXML_OK)
+    if ((ret = parse_node(encoder, node, enc_end)) == WBXML_OK) {
         encoder->pre_last_node_len = prev_len;
+        encoder->pre_last_tagCodePage = prev_tagCodePage;
+        encoder->pre_last_attrCodePage = prev_attrCodePage;
+        encoder->pre_last_indent = prev_indent;
+        encoder->pre_last_in_content = prev_in_content;
+        encoder->pre_last_tag = prev_tag;
+    }
     
     return ret;
 }
@@ -813,6 +842,13 @@ WBXML_DECLARE(void) wbxml_encoder_delete_last_node(WBXMLEncoder *encoder)
         return;
     
     wbxml_encoder_delete_output_bytes(encoder, wbxml_buffer_len(encoder->output) - encoder->pre_last_node_len);
+
+    /* What is encoded next must not depend on the deleted node */
+    encoder->tagCodePage = encoder->pre_last_tagCodePage;
+    encoder->attrCodePage = encoder->pre_last_attrCodePage;
+    encoder->indent = encoder->pre_last_indent;
+    encoder->in_content = encoder->pre_last_in_content;
+    encoder->current_tag = encoder->pre_last_tag;
 }
 
 
